@@ -89,6 +89,29 @@ def check_C01(ctx, rep):
     for cfg in cfgs:
         f = ctx.facts(cfg)
         check_cfg(ctx, rep, f, cfg)
+    check_witness(rep)
+
+def check_witness(rep):
+    """R3w: compile_fail witnesses (and their compiling twins) from an external crate"""
+    import os, re, shutil, subprocess, tempfile
+    from . import extract
+    wdir = os.path.join(extract.VERIF, "witness")
+    tgt = tempfile.mkdtemp(prefix="tfwitness-target.")
+    try:
+        env = dict(os.environ, CARGO_NET_OFFLINE="true", CARGO_TARGET_DIR=tgt)
+        p = subprocess.run(["cargo", "+nightly", "test", "--doc", "--offline"], cwd=wdir, env=env, stdout=subprocess.PIPE, stderr=subprocess.STDOUT, text=True)
+        out = p.stdout
+    finally:
+        shutil.rmtree(tgt, ignore_errors=True)
+    cf_ok = len(re.findall(r"- compile fail \.\.\. ok", out))
+    tw_ok = len(re.findall(r"- compile \.\.\. ok", out))
+    failed = re.findall(r"^test (.*) \.\.\. FAILED", out, re.M)
+    if "could not compile `twofloat`" in out:
+        rep.note("witness crate: twofloat itself does not build; reported by the build rule")
+        return
+    rep.check(p.returncode == 0 and not failed and cf_ok >= 5 and tw_ok >= 5, "R3w", "external crate cannot build / read / overwrite TwoFloat words", "witness",
+              "compile-fail witnesses: %d of 5 rejected with the expected error code, %d of 5 twins compile, failed: %s" % (cf_ok, tw_ok, failed or out[-400:]),
+              detail={"compile_fail_ok": cf_ok, "twins_ok": tw_ok}, nontrivial=True)
 
 def check_cfg(ctx, rep, f, cfg):
     sfx = "" if cfg == "A" else " [cfg B]"
@@ -186,6 +209,13 @@ def check_cfg(ctx, rep, f, cfg):
                   "%s returns a TwoFloat from an unclassified source: %s" % (b.ident(), "; ".join(vg.show(v)[:100] for v in badret[:2])), where=H.where(b),
                   nontrivial=False, detail="returns parameter / constant / classified aggregate / crate call")
     rep.floor("R2", n_r, 150, "functions returning TwoFloat" + sfx)
+    # R1g the gate used by k5 is Definition 1.4 itself (shared with C07's R18)
+    if cfg == "A":
+        from . import rules_base, dectree as D
+        tr, b = rules_base.get_tree(rep, f, "R1g", "fn:no_overlap")
+        if tr is not None:
+            rules_base.expect_equiv(rep, "R1g", "checked-construction gate is Definition 1.4", "gate-predicate", D.expand_bool_leaves(tr), rules_base.no_overlap_ref(), b,
+                                    "the predicate dominating k5 sites (and is_valid) equals the reference form of RN(a+b) == a")
     # R3 nothing outside the crate can build or mutate one
     for s in f.structs:
         if F.norm_path(s["path"]) == TF:
